@@ -42,6 +42,7 @@ func main() {
 		{"KmpDedupGen.v", genKmpDedup},
 		{"CleanupRingGen.v", genCleanupRing},
 		{"SplitTailGen.v", genSplitTail},
+		{"DedupeGen.v", genDedupe},
 		{"TmsData.v", genTmsData},
 		{"CliGen.v", genCli},
 	}
